@@ -1601,6 +1601,92 @@ theorem compileFeatures_index (c : Map.Cfg) (tables : List (Option Table)) (sels
   exact ⟨info, hi, ht, by rw [hx, findFeature_mapFont]⟩
 
 
+/-! ### `find_language_feature`: the loop over the listed feature indices, dangling indices included -/
+
+/-- the loop is `find?` for "the record exists and carries the tag" -/
+theorem findFeatureLoop_eq_find? (feats : List Tag) (ft : Tag) (l : List Nat) :
+    findFeatureLoop feats ft l = l.find? (fun i => feats[i]? == some ft) := by
+  induction l with
+  | nil => rfl
+  | cons i rest ih =>
+    unfold findFeatureLoop
+    cases h : feats[i]? with
+    | none => simp [h, ih]
+    | some t =>
+      by_cases e : t = ft
+      · subst e; simp [h]
+      · simp [h, e, ih]
+
+/-- an index past the FeatureList is skipped: the search goes on behind it -/
+theorem findFeatureLoop_dangling {feats : List Tag} {i : Nat} (ft : Tag) (rest : List Nat) (h : feats[i]? = none) :
+    findFeatureLoop feats ft (i :: rest) = findFeatureLoop feats ft rest := by
+  rw [findFeatureLoop, h]
+
+/-- whatever stands in front — records with other tags, dangling indices — is skipped -/
+theorem findFeatureLoop_skip {feats : List Tag} {ft : Tag} :
+    ∀ (pre l : List Nat), (∀ j ∈ pre, feats[j]? ≠ some ft) →
+      findFeatureLoop feats ft (pre ++ l) = findFeatureLoop feats ft l
+  | [], _, _ => rfl
+  | j :: pre, l, h => by
+    have hj := h j List.mem_cons_self
+    have ih := findFeatureLoop_skip pre l (fun k hk => h k (List.mem_cons_of_mem _ hk))
+    rw [List.cons_append, findFeatureLoop]
+    cases hf : feats[j]? with
+    | none => exact ih
+    | some t =>
+      have : t ≠ ft := by intro e; subst e; exact hj hf
+      simp only [beq_iff_eq, this, if_false]
+      exact ih
+
+/-- the first listed index whose record exists and carries the tag is the result -/
+theorem findFeatureLoop_found {feats : List Tag} {ft : Tag} (pre post : List Nat) (i : Nat)
+    (hi : feats[i]? = some ft) (hpre : ∀ j ∈ pre, feats[j]? ≠ some ft) :
+    findFeatureLoop feats ft (pre ++ i :: post) = some i := by
+  rw [findFeatureLoop_skip pre _ hpre, findFeatureLoop, hi]
+  simp
+
+/-- a result is a listed index, its record exists and carries the tag, and nothing listed before it does -/
+theorem findFeatureLoop_some {feats : List Tag} {ft : Tag} :
+    ∀ {l : List Nat} {i : Nat}, findFeatureLoop feats ft l = some i →
+      feats[i]? = some ft ∧ ∃ pre post, l = pre ++ i :: post ∧ ∀ j ∈ pre, feats[j]? ≠ some ft
+  | [], _, h => by cases h
+  | j :: rest, i, h => by
+    rw [findFeatureLoop] at h
+    cases hf : feats[j]? with
+    | none =>
+      rw [hf] at h
+      obtain ⟨h1, pre, post, h2, h3⟩ := findFeatureLoop_some (l := rest) h
+      refine ⟨h1, j :: pre, post, by rw [h2]; rfl, ?_⟩
+      intro k hk
+      rcases List.mem_cons.1 hk with rfl | hk
+      · rw [hf]; intro e; cases e
+      · exact h3 k hk
+    | some t =>
+      rw [hf] at h
+      by_cases e : t = ft
+      · subst e
+        simp only [beq_self_eq_true, if_true] at h
+        injection h with h; subst h
+        exact ⟨hf, [], rest, rfl, by intro k hk; cases hk⟩
+      · simp only [beq_iff_eq, e, if_false] at h
+        obtain ⟨h1, pre, post, h2, h3⟩ := findFeatureLoop_some (l := rest) h
+        refine ⟨h1, j :: pre, post, by rw [h2]; rfl, ?_⟩
+        intro k hk
+        rcases List.mem_cons.1 hk with rfl | hk
+        · rw [hf]; intro e'; injection e' with e'; exact e e'
+        · exact h3 k hk
+
+/-- nothing is found exactly when no listed index has an existing record with the tag -/
+theorem findFeatureLoop_none {feats : List Tag} {ft : Tag} {l : List Nat} :
+    findFeatureLoop feats ft l = none ↔ ∀ i ∈ l, feats[i]? ≠ some ft := by
+  rw [findFeatureLoop_eq_find?, List.find?_eq_none]
+  constructor
+  · intro h i hi hf
+    have := h i hi
+    simp [hf] at this
+  · intro h i hi
+    simpa using h i hi
+
 /-- a record found through the selected language system is listed by it and carries the tag -/
 theorem langFeatureAt_some {tables : List (Option Table)} {sels : List (Option Selection)} {t : Nat} {ft : Tag} {i : Nat}
     (h : langFeatureAt tables sels t ft = some i) :
@@ -1613,6 +1699,7 @@ theorem langFeatureAt_some {tables : List (Option Table)} {sels : List (Option S
     split at h
     · cases h
     · rename_i sys hsys
+      rw [findFeatureLoop_eq_find?] at h
       have h1 := List.find?_some h
       have h2 := List.mem_of_find?_eq_some h
       exact ⟨tb, s, sys, htb, hs, hsys, h2, by simpa using h1⟩
